@@ -140,7 +140,7 @@ class NotAbstractable(Exception):
 
 
 def alpha_val(v):
-    """real value -> tagged value (canonical: members of sets and items of dicts sorted)."""
+    """real value -> tagged value (members of sets sorted, items of dicts in insertion order; compare through norm())."""
     if v is None:
         return {"k": "none", "v": 0}
     if isinstance(v, bool):
@@ -169,7 +169,7 @@ def alpha_val(v):
     if isinstance(v, (set, frozenset)):
         return {"k": "set", "v": sorted((alpha_val(e) for e in v), key=canon)}
     if isinstance(v, dict):
-        return {"k": "dict", "v": sorted(([alpha_val(a), alpha_val(b)] for a, b in v.items()), key=canon)}
+        return {"k": "dict", "v": [[alpha_val(a), alpha_val(b)] for a, b in v.items()]}  # insertion order (in-place conversion depends on it)
     if isinstance(v, BaseException):
         return {"k": "exc", "v": 0}
     raise NotAbstractable(f"{type(v).__name__}: {v!r}"[:80])
@@ -506,7 +506,7 @@ def classify_replay(rep, case, chan, real, stats):
     t, x = case["t"], case["x"]
     res = [canon(norm(r)) for r in case["res"]]
     av = canon(norm(case["av"]))
-    rv = canon(real["v"])
+    rv = canon(norm(real["v"]))
     ref_ok = real["ok"] == case["acc"] and (not real["ok"] or rv in res)
     alg_ok = real["ok"] == case["aok"] and (not real["ok"] or rv == av)
     info = {"type": type_str(t), "t": t, "x": x, "channel": chan, "python": python_repro(t, x, chan),
@@ -538,9 +538,14 @@ def classify_replay(rep, case, chan, real, stats):
 
 def report_deviation(rep, devs, t, x, chan, real_ok, ref_acc, info):
     """the real code disagrees with Ref exactly as the Alg layer's named deviation(s) predict: one key per name"""
-    real_devs = [d for d in devs if d != "setListing"]  # not a defect by itself: Python does not fix the order in which a set is listed
-    if not real_devs:
+    # setListing is not a defect by itself (Python does not fix the order in which a set is listed); firstMatch is a marker, not a deviation from Ref
+    real_devs = [d for d in devs if d not in ("setListing", "firstMatch")]
+    if not real_devs and "setListing" in devs:
         rep.extra["set_order_dependent_disagreements"] = rep.extra.get("set_order_dependent_disagreements", 0) + 1
+        return
+    if not real_devs:
+        rep.violation(f"{'accept' if real_ok else 'reject'}/other:{shape(t, x)}:{chan}", f"{type_str(t)} with input {gamma_repr(x)} ({chan}): real code "
+                      f"{'accepts' if real_ok else 'rejects'} against Ref and no named deviation explains it", info)
         return
     for d in real_devs:
         rep.violation(f"{DEV_KEYS.get(d, d)}/as-alg:{shape(t, x)}",
@@ -587,7 +592,7 @@ def model_profile(cases) -> dict:
         row["cases"] += 1
         row["ref_accepts"] += c["acc"]
         row["alg_accepts"] += c["aok"]
-        row["with_deviation"] += bool(c["dev"])
+        row["with_deviation"] += bool(set(c["dev"]) - {"firstMatch"})
         inputs[c["x"]["k"]] = inputs.get(c["x"]["k"], 0) + 1
         for d in c["dev"]:
             devs[d] = devs.get(d, 0) + 1
@@ -761,7 +766,7 @@ def main(argv):
     rep.extra["model_types"] = len(types)
     rep.extra["model_cases"] = len(cases)
     rep.extra["model_cases_ref_accepts"] = sum(1 for c in cases if c["acc"])
-    rep.extra["model_cases_with_named_deviation"] = sum(1 for c in cases if c["dev"])
+    rep.extra["model_cases_with_named_deviation"] = sum(1 for c in cases if set(c["dev"]) - {"firstMatch"})
     rep.extra["vocabulary_rows_checked"] = n_vocab
     rep.extra["model_profile"] = model_profile(cases)
     rep.extra["replayed_executions"] = n_exec
